@@ -27,8 +27,13 @@ def solve_fixed_grid(
         state0 = solver.init(t=t0, u=u, damp=damp)
         s_new, result = flow.scan(body_fn, init=state0, xs=np.diff(grid))
 
+        # The last step ends exactly at the last grid point: there is no overstepped
+        # state, so continue (like the adaptive loop does) from the state at t1.
+        _, interp_res = solver.interpolate_fwd_at_t1(
+            t=s_new.t, interp_from=s_new, interp_to=s_new
+        )
         return solver.userfriendly_output(
-            solution0=state0, solution=result, solution1=s_new
+            solution0=state0, solution=result, solution1=interp_res.step_from
         )
 
     return solve
